@@ -1,4 +1,5 @@
 SPECIFICATION Spec
+CONSTANT JetRows <- CoreJets
 CONSTANT CmrN = 8
 POSTCONDITION Accepted
 CHECK_DEADLOCK FALSE
